@@ -138,9 +138,18 @@ func Steps() int     { return 0 }
 func And(a, b bool) bool { return a && b }
 func Or(a, b bool) bool  { return a || b }
 
-// SetFS installs the file-system model used by the engine's os stubs; natively
-// it is ignored (replay materialises the tree on disk instead).
-func SetFS(fs interface{}) {}
+// SetFS installs the file-system model used by the engine's os stubs. Natively
+// the tree is materialised in a fresh temporary directory which becomes the
+// working directory (the model's root is that directory, so absolute patterns
+// are not replayable natively and harnesses avoid them).
+func SetFS(fs interface{}) {
+	if FSHook != nil {
+		FSHook(fs)
+	}
+}
+
+// FSHook is installed by the native replay driver.
+var FSHook func(fs interface{})
 
 // Concrete forces s to a concrete value (identity natively).
 func Concrete(s string) string { return s }
